@@ -1871,7 +1871,12 @@ class _FormatInferInstance(Visitor):
         # When ``F.prec > C.prec`` we fall back to C's bounds.
         # ``int | float`` comparison works directly with the
         # ``float('inf')`` sentinel used for unbounded prec.
-        prec = min(exact.prec, scope_af.prec)
+        # A result that leaves the scope's range saturates to its largest value
+        # (directed modes, SATURATE) or becomes its infinity: the former carries
+        # the scope's full precision, the latter is a special `exact` need not have.
+        over_pos = exact.pos_bound > scope_af.pos_bound
+        over_neg = exact.neg_bound < scope_af.neg_bound
+        prec = scope_af.prec if (over_pos or over_neg) else min(exact.prec, scope_af.prec)
         exp = max(exact.exp, scope_af.exp)
         if exact.prec > scope_af.prec:
             pos_bound = scope_af.pos_bound
@@ -1879,7 +1884,20 @@ class _FormatInferInstance(Visitor):
         else:
             pos_bound = min(exact.pos_bound, scope_af.pos_bound)
             neg_bound = max(exact.neg_bound, scope_af.neg_bound)
-        overlap = AbstractFormat(prec, exp, pos_bound, neg_bound=neg_bound)
+        # Rounding keeps the specials of `exact` that the scope can hold, and may
+        # create an infinity (overflow) or a negative zero (a negative underflow).
+        any_inf = exact.has_pos_inf or exact.has_neg_inf or over_pos or over_neg
+        overlap = AbstractFormat(
+            prec, exp, pos_bound, neg_bound=neg_bound,
+            has_pos_inf=scope_af.has_pos_inf and (exact.has_pos_inf or over_pos),
+            has_neg_inf=scope_af.has_neg_inf and (exact.has_neg_inf or over_neg),
+            has_nan=scope_af.has_nan and (exact.has_nan or any_inf),
+            has_neg_zero=scope_af.has_neg_zero and (
+                exact.has_neg_zero
+                # a negative value underflows to `-0.0` only where digits are dropped
+                or (exact.neg_bound < 0 and exact.exp < scope_af.exp)
+            ),
+        )
         return self._materialize_in_scope(overlap, scope_fmt)
 
     @staticmethod
